@@ -29,7 +29,7 @@ NOUP_nil()
 """,
     loops={0: {
         "inv": [
-            "0 <= pos and pos <= len(text)",
+            "0 <= pos and pos <= len(text) and len(result) == pos",
             'DU("".join(result)) == DU(LOW(text[:pos]))',
             'NOUP("".join(result))',
             'pos <= len("".join(result)) and len("".join(result)) <= 2 * pos',
@@ -37,7 +37,15 @@ NOUP_nil()
             'implies(NOUP(text[:pos]), "".join(result) == text[:pos])',
         ],
         "decreases": "len(text) - pos",
-        "head": "J0 = ''.join(result)\n" + _step + "NOUP_snoc(text[:pos], text[pos])\n",
+        "head": "J0 = ''.join(result)\np0_ = pos\n" + _step + "NOUP_snoc(text[:pos], text[pos])\n",
+        # the documented mapping itself (names must be predictable from the input alone): an underscore goes before a
+        # capital that is not among the first two characters and that follows a lower-case letter or precedes one
+        "end": """
+c_ = text[p0_]
+sep_ = c_.isupper() and p0_ >= 2 and (text[p0_ - 1].islower() or (p0_ + 1 < len(text) and text[p0_ + 1].islower()))
+assert result[-1] == (('_' + c_.lower()) if sep_ else c_.lower())
+assert len(result) == p0_ + 1
+""",
     }},
     ghost=[
         # whatever is appended: unfold the folds over its (at most two) characters
